@@ -12,3 +12,4 @@ def check(rep, tier):
     rep.run(programs_exact.run_history, rep)
     from contracts import core_backward
     rep.run(core_backward.run_proof, rep, tier, which=('backward_pass',))
+    rep.run(tracer_ftba.run_unbounded, rep, tier)
